@@ -316,6 +316,137 @@ def ind_task(n_ind, shape, prop=PROP):
     return guarded(prop, task, body)
 
 
+# ------------------------------------------------------------------------------------------------------------------
+# "The decision for one individual depends on that individual's own change only" as a 2-safety claim in IEEE float32:
+# two executions that agree on individual 0 (value, data, scale, draws) and differ arbitrarily on the others - including
+# overflowing / NaN likelihoods there - give individual 0 the same new value and the same recorded decision.
+# ------------------------------------------------------------------------------------------------------------------
+NONINT_REPLAY = REPLAY_PRELUDE + """
+def A32(v, o): return ((v - o) ** 2).sum(dim=1)
+def R32(v): return (v ** 2).sum(dim=1)
+def dag32():
+    return VariablesDAG.from_dict({"v": DataVariable(), "o": DataVariable(),
+        "nll_attach_ind": LinkedVariable(NamedInputFunction(A32, ("v", "o"))), "nll_regul_v_ind": LinkedVariable(NamedInputFunction(R32, ("v",))),
+        "nll_regul_ind_sum_ind": LinkedVariable(NamedInputFunction(lambda nll_regul_v_ind: nll_regul_v_ind, ("nll_regul_v_ind",))),
+        "nll_attach": LinkedVariable(NamedInputFunction(lambda nll_attach_ind: nll_attach_ind.sum(), ("nll_attach_ind",)))})
+def one_run(X):
+    f32 = lambda a: torch.tensor(a, dtype=torch.float32)
+    S = State(dag32(), auto_fork_type=StateForkType.REF)
+    with S.auto_fork(None): S["v"] = f32(X["v"]); S["o"] = f32(X["o"])
+    n = len(X["v"])
+    smp = sampler_factory("gibbs", IndividualLatentVariable, name="v", shape=tuple(f32(X["v"]).shape[1:]), n_patients=n, scale=1.0)
+    smp.std = f32(X["std"])
+    saved = (torch.randn, torch.rand)
+    torch.randn, torch.rand = (lambda *a, **k: f32(X["z"])), (lambda *a, **k: f32(X["u"]))
+    try: smp.sample(S, temperature_inv=X["tinv"])
+    finally: torch.randn, torch.rand = saved
+    return S["v"][0].clone(), smp.acceptation_history[-1][0].clone(), S["nll_attach_ind"][0].clone()
+"""
+
+
+def ind_noninterference_task(n_ind=2, shape=(1,), prop=PROP):
+    task = f"ind-noninterference[F32,n={n_ind},shape={tuple(shape)}]"
+
+    def body():
+        rec = Recorder(prop, task, [IndividualGibbsSampler.sample, IndividualGibbsSampler._proposed_change, AbstractSampler._group_metropolis_step, State.revert, State.put])
+        rec.stubs += ["torch.randn -> fresh float32 symbols", "torch.rand -> fresh float32 symbols in [0,1)"]
+        hold = {}
+        f32 = torch.float32
+
+        def dag32():
+            A = lambda v, o: ((v - o) ** 2).sum(dim=1)
+            R = lambda v: (v**2).sum(dim=1)
+            return VariablesDAG.from_dict({
+                "v": DataVariable(), "o": DataVariable(),
+                "nll_attach_ind": LinkedVariable(NamedInputFunction(A, ("v", "o"))), "nll_regul_v_ind": LinkedVariable(NamedInputFunction(R, ("v",))),
+                "nll_regul_ind_sum_ind": LinkedVariable(NamedInputFunction(lambda nll_regul_v_ind: nll_regul_v_ind, ("nll_regul_v_ind",))),
+                "nll_attach": LinkedVariable(NamedInputFunction(lambda nll_attach_ind: nll_attach_ind.sum(), ("nll_attach_ind",))),
+            })
+
+        def shared(name, shp, tag):
+            """row 0 shared between the two executions, the other rows private to execution `tag`"""
+            a = st.sym(name, shp, f32, register=(tag == "A"))
+            if tag == "A":
+                return a
+            b = st.sym(name + "'", shp, f32, register=True)
+            arr = b.sym.copy()
+            arr[0] = hold["A"][name].sym[0]
+            return st.mk(arr, f32)
+
+        def one(tag, tinv):
+            X = {}
+            for name, shp in (("v", (n_ind,) + tuple(shape)), ("o", (n_ind,) + tuple(shape)), ("std", (n_ind,)), ("z", (n_ind,) + tuple(shape)), ("u", (n_ind,))):
+                X[name] = shared(name, shp, tag)
+                if tag == "A":
+                    hold.setdefault("A", {})[name] = X[name]
+            for x in X["std"].sym.reshape(-1):
+                T.assume(z3.And(z3.fpGT(x, z3.FPVal(0.0, x.sort())), z3.Not(z3.fpIsInf(x))))
+            for x in X["u"].sym.reshape(-1):
+                T.assume(z3.And(z3.fpGEQ(x, z3.FPVal(0.0, x.sort())), z3.fpLT(x, z3.FPVal(1.0, x.sort()))))
+            for nm in ("v", "o", "z"):  # the state and the draws themselves are finite numbers (the likelihoods may still overflow)
+                for x in X[nm].sym.reshape(-1):
+                    T.assume(z3.Not(z3.Or(z3.fpIsNaN(x), z3.fpIsInf(x))))
+            S = State(dag32(), auto_fork_type=StateForkType.REF)
+            with S.auto_fork(None):
+                S["v"] = X["v"]
+                S["o"] = X["o"]
+            smp = sampler_factory("gibbs", IndividualLatentVariable, name="v", shape=tuple(shape), n_patients=n_ind, scale=1.0)
+            smp.std = X["std"]
+            saved = (torch.randn, torch.rand)
+            torch.randn, torch.rand = (lambda *a, **k: X["z"]), (lambda *a, **k: X["u"])
+            try:
+                smp.sample(S, temperature_inv=tinv)
+            finally:
+                torch.randn, torch.rand = saved
+            return X, st.to_terms(S["v"])[0].reshape(-1), st.to_terms(smp.acceptation_history[-1]).reshape(-1)[0], st.to_terms(S["nll_attach_ind"]).reshape(-1)[0]
+
+        def run():
+            hold.clear()
+            tinv = st.sym("tinv", (), f32)
+            t_ = tinv.sym[()]
+            T.assume(z3.And(z3.fpGT(t_, z3.FPVal(0.0, t_.sort())), z3.fpLEQ(t_, z3.FPVal(1.0, t_.sort()))))
+            ra = one("A", tinv)
+            rb = one("B", tinv)
+            hold.update(XA=ra[0], XB=rb[0], tinv=tinv)
+            return ra[1:], rb[1:]
+
+        def rp(model):
+            lit = lambda t: [model_value(model, x) for x in t.sym.reshape(-1)]
+            def X(d):
+                return {k: np.array(lit(v), dtype=float).reshape(tuple(v.sym.shape)).tolist() for k, v in d.items()}
+            XA, XB = X(hold["XA"]), X(hold["XB"])
+            XA["tinv"] = XB["tinv"] = lit(hold["tinv"])[0]
+            return NONINT_REPLAY + f"""
+XA = {XA!r}
+XB = {XB!r}
+nan = float('nan'); inf = float('inf')
+a, b = one_run(XA), one_run(XB)
+same = lambda x, y: bool(torch.where(torch.isnan(x), torch.isnan(y), x == y).all())
+print('individual 0 in execution A:', a); print('individual 0 in execution B (same individual 0, other individuals differ):', b)
+sys.exit(0 if all(same(x, y) for x, y in zip(a, b)) else 1)
+"""
+
+        for c, res in st.explore(run, "F"):
+            rec.end_path(c)
+            if isinstance(res, Exception):
+                raise res
+            (va, ha, aa), (vb, hb, ab) = res
+            if rec.violations:
+                T.STOP_EXPLORATION = True  # one reproduced counterexample decides the task
+                break
+            for k, (x, y) in enumerate(zip(va, vb)):
+                rec.prove(f"value[0][{k}]#{rec.paths}", T.same_value(x, y), replay=rp, key=f"{prop}:noninterference", timeout_ms=120000,
+                          what="the new value of an individual depends on the other individuals (their likelihoods, draws or values)")
+            rec.prove(f"decision[0]#{rec.paths}", T.same_value(ha, hb), replay=rp, key=f"{prop}:noninterference", timeout_ms=120000, what="the recorded decision of an individual depends on the other individuals")
+            rec.prove(f"attachment[0]#{rec.paths}", T.same_value(aa, ab), replay=rp, key=f"{prop}:noninterference", timeout_ms=120000, what="the refreshed attachment of an individual depends on the other individuals")
+            if rec.paths == 1:
+                rec.twin("path", timeout_ms=60000)
+        rec.sample({"theory": "IEEE float32", "individuals": n_ind, "row_shape": list(shape), "claim": "2-safety: executions equal on individual 0 give it the same transition"})
+        return rec.result()
+
+    return guarded(prop, task, body)
+
+
 def structure_task(tier="quick", prop=PROP):
     def body():
         rec = Recorder(prop, "structure-real-graphs", [])
@@ -344,7 +475,10 @@ def tasks(tier, seed=0):
             ts.append(("pop_task", dict(kind=k, shape=sh)))
     ts.append(("ind_task", dict(n_ind=2, shape=(1,))))
     ts.append(("ind_task", dict(n_ind=2, shape=(2,))))
+    ts.append(("ind_noninterference_task", dict(n_ind=2, shape=(1,))))
     if tier == "thorough":
+        ts.append(("ind_noninterference_task", dict(n_ind=2, shape=(2,))))
+        ts.append(("ind_noninterference_task", dict(n_ind=3, shape=(1,))))
         ts.append(("ind_task", dict(n_ind=3, shape=(1,))))
         ts.append(("ind_task", dict(n_ind=3, shape=(2,))))
     return ts
